@@ -123,3 +123,33 @@ func verif_config_init() {
 	verif.ResetEvents()
 	verif.CallTarget()
 }
+
+// RegisterClientCommonConfigFlags, the frpc command line outside ssh mode: the
+// golden table flag name -> field, and the defaults that differ from the zero
+// value where a configuration file cannot repair them afterwards: tls_enable
+// defaults to true, the value a file-configured client gets (C18 "means the same
+// in every format"; C05).
+//
+//verif:contract ~/pkg/config.RegisterClientCommonConfigFlags
+//verif:props C18 C05
+//verif:kinds post
+func verif_RegisterClientCommonConfigFlags(cmd *cobra.Command, c *v1.ClientCommonConfig) {
+	verif.ResetEvents()
+	RegisterClientCommonConfigFlags(cmd, c)
+	if verif.Called("FlagSet).BoolP") { // not ssh mode
+		verif.Ensures(verif.CallCountWith("FlagSet).StringVarP", 2, "server_addr") == 1 && verif.CallCountWith2("FlagSet).StringVarP", 1, &c.ServerAddr, 2, "server_addr") == 1, "flag_server_addr_sets_ServerAddr")
+		verif.Ensures(verif.CallCountWith("FlagSet).IntVarP", 2, "server_port") == 1 && verif.CallCountWith2("FlagSet).IntVarP", 1, &c.ServerPort, 2, "server_port") == 1, "flag_server_port_sets_ServerPort")
+		verif.Ensures(verif.CallCountWith("FlagSet).StringVarP", 2, "protocol") == 1 && verif.CallCountWith2("FlagSet).StringVarP", 1, &c.Transport.Protocol, 2, "protocol") == 1, "flag_protocol_sets_Transport_Protocol")
+		verif.Ensures(verif.CallCountWith("FlagSet).StringVarP", 2, "log_level") == 1 && verif.CallCountWith2("FlagSet).StringVarP", 1, &c.Log.Level, 2, "log_level") == 1, "flag_log_level_sets_Log_Level")
+		verif.Ensures(verif.CallCountWith("FlagSet).StringVarP", 2, "log_file") == 1 && verif.CallCountWith2("FlagSet).StringVarP", 1, &c.Log.To, 2, "log_file") == 1, "flag_log_file_sets_Log_To")
+		verif.Ensures(verif.CallCountWith("FlagSet).Int64VarP", 2, "log_max_days") == 1 && verif.CallCountWith2("FlagSet).Int64VarP", 1, &c.Log.MaxDays, 2, "log_max_days") == 1, "flag_log_max_days_sets_Log_MaxDays")
+		verif.Ensures(verif.CallCountWith("FlagSet).BoolVarP", 2, "disable_log_color") == 1 && verif.CallCountWith2("FlagSet).BoolVarP", 1, &c.Log.DisablePrintColor, 2, "disable_log_color") == 1, "flag_disable_log_color_sets_Log_DisablePrintColor")
+		verif.Ensures(verif.CallCountWith("FlagSet).StringVarP", 2, "tls_server_name") == 1 && verif.CallCountWith2("FlagSet).StringVarP", 1, &c.Transport.TLS.ServerName, 2, "tls_server_name") == 1, "flag_tls_server_name_sets_Transport_TLS_ServerName")
+		verif.Ensures(verif.CallCountWith("FlagSet).StringVarP", 2, "dns_server") == 1 && verif.CallCountWith2("FlagSet).StringVarP", 1, &c.DNSServer, 2, "dns_server") == 1, "flag_dns_server_sets_DNSServer")
+	}
+	verif.Ensures(verif.CallCountWith("FlagSet).StringVarP", 2, "user") == 1 && verif.CallCountWith2("FlagSet).StringVarP", 1, &c.User, 2, "user") == 1, "flag_user_sets_User")
+	verif.Ensures(verif.CallCountWith("FlagSet).StringVarP", 2, "token") == 1 && verif.CallCountWith2("FlagSet).StringVarP", 1, &c.Auth.Token, 2, "token") == 1, "flag_token_sets_Auth_Token")
+	if verif.Called("FlagSet).BoolP") {
+		verif.Ensures(verif.CallCountWith("FlagSet).BoolP", 1, "tls_enable") == 1 && verif.NthArg[bool]("FlagSet).BoolP", 0, 3) && c.Transport.TLS.Enable == verif.Ret[*bool]("FlagSet).BoolP", 0), "tls_enable_defaults_to_true_and_is_bound")
+	}
+}
